@@ -1208,6 +1208,18 @@ snowv_xor(struct snowv *s, const uint8_t *in, uint8_t *out, size_t len)
 	}
 }
 
+/* SNOW-V-AEAD: GHASH key H (keystream block 0 of the AEAD-mode initialisation) and the endpad (block 1);
+ * exported for the residue scanner (C13): both are derived key material */
+void
+ref_snowv_aead_hkey(const uint8_t key[32], const uint8_t iv[16], uint8_t h[16], uint8_t endpad[16])
+{
+	struct snowv s;
+
+	snowv_init(&s, key, iv, 1);
+	snowv_keystream_block(&s, h);
+	snowv_keystream_block(&s, endpad);
+}
+
 void
 ref_snowv(const uint8_t key[32], const uint8_t iv[16], const uint8_t *in, uint8_t *out,
           size_t len_bytes)
